@@ -122,7 +122,10 @@ Definition oracle_mx_all (s s' : smx) (o : line) (r : list bytes) : list bytes :
   else if beqb op (bs "hmatch") then
     check (negb (obs_is r "panic")) "C05:hosts-match-panics" ++
     (if hunsup s || negb (is_ascii (arg 1 o)) || obs_is r "panic" then [] else
-     match hosts_live_toks s with
+     match (match hosts_live_toks s with
+            | Some l => if forallb (fun pt => match index (fst pt) (bs ":}") with Some _ => false | None => true end) l
+                        then Some l else None      (* canonical spellings only, as in C02 *)
+            | None => None end) with
      | None => []
      | Some lt =>
        let ps0 := params_of (fst (take_list (skipn 2 a))) in
